@@ -50,8 +50,11 @@ impl Trie {
         &'a self,
         input: &'a [char],
     ) -> impl Iterator<Item = TrieMatch> + 'a {
+        // U+0000 is the end marker inside crawdad and never occurs in a registered word.
+        // The search must stop there; otherwise the marker edge is followed and a word is
+        // reported with one extra character.
         self.da
-            .common_prefix_search(input.iter().cloned())
+            .common_prefix_search(input.iter().cloned().take_while(|&c| c != '\0'))
             .map(move |(value, end_char)| TrieMatch::new(value, end_char))
     }
 }
